@@ -68,7 +68,8 @@ Apply(l, op, r) ==
     ELSE LET a == Q(l)  b == Q(r) IN
          CASE op = "+" -> Typed(l, r, a + b)
            [] op = "-" -> Typed(l, r, a - b)
-           [] op = "*" -> IF (a * b) % 4 # 0 THEN Unrep ELSE Typed(l, r, (a * b) \div 4)
+           [] op = "*" -> IF a # 0 /\ AbsI(b) > (4 * Big) \div AbsI(a) THEN Unrep      \* too large (also keeps TLC's 32-bit integers from overflowing)
+                          ELSE IF (a * b) % 4 # 0 THEN Unrep ELSE Typed(l, r, (a * b) \div 4)
            [] op = "/" -> IF b = 0 THEN ErrV ELSE IF (a * 4) % b # 0 THEN Unrep ELSE Typed(l, r, TruncDiv(a * 4, b))
            [] op = "%" -> IF b = 0 THEN Unrep ELSE Typed(l, r, Rem(a, b))
 Operand(o, facts) == CASE o[1] = "n" -> o[2]
